@@ -42,8 +42,31 @@ theorem row_entry_mem (s : NvStore) (d : Row) (h : d ∈ table s) : d.entry ∈ 
   rw [← table_entries s]
   exact List.mem_map_of_mem h
 
-theorem links_of_wf (s : NvStore) (hwf : WF s) (hlk : linksOk s = true) : Links s := by
-  have hp := wf_parts s hwf
+/-- link distances are positive (field range `okNext`) -/
+theorem pos_of_parts (s : NvStore) (hp : WFParts s) :
+    ∀ d ∈ table s, ∀ r, d.entry.next = some r → 0 < r := by
+  intro d hd r hr
+  have hok := hp.ok d.entry (row_entry_mem s d hd)
+  cases he : d.entry with
+  | var f g n v x nx =>
+    rw [he] at hok hr
+    simp only [Entry.ok, Bool.and_eq_true] at hok
+    simp only [Entry.next] at hr
+    subst hr
+    have := hok.2.2
+    simp only [okNext, Bool.and_eq_true, decide_eq_true_eq] at this
+    exact this.1
+  | data f v x nx =>
+    rw [he] at hok hr
+    simp only [Entry.ok, Bool.and_eq_true] at hok
+    simp only [Entry.next] at hr
+    subst hr
+    have := hok.2.2
+    simp only [okNext, Bool.and_eq_true, decide_eq_true_eq] at this
+    exact this.1
+  | dead a nx b => rw [he] at hr; simp [Entry.next] at hr
+
+theorem links_of_parts (s : NvStore) (hp : WFParts s) (hlk : linksOk s = true) : Links s := by
   simp only [linksOk, Bool.and_eq_true, List.all_eq_true] at hlk
   obtain ⟨hnd, hnv⟩ := hlk
   have hnd := nodupB_nodup _ hnd
@@ -79,6 +102,9 @@ theorem links_of_wf (s : NvStore) (hwf : WF s) (hlk : linksOk s = true) : Links 
     rw [he] at this
     simp only [Bool.not_eq_true', List.contains_eq_mem, decide_eq_false_iff_not] at this
     exact this (heq ▸ htgt d' hd' hs' r hr)
+
+theorem links_of_wf (s : NvStore) (hwf : WF s) (hlk : linksOk s = true) : Links s :=
+  links_of_parts s (wf_parts s hwf) hlk
 
 /-- every head recorded in the table is a `var` entry of the store -/
 def HeadVar (es : List Entry) (d : Row) : Prop :=
